@@ -70,6 +70,8 @@ pub enum ModelEvaluatorError {
   DecisionTableWithoutOutputClause,
   #[error("decision table rule has {0} input entries and {1} output entries, expected {2} and {3}")]
   DecisionTableRuleSizeMismatch(usize, usize, usize, usize),
+  #[error("cyclic requirements, element with identifier `{0}` requires itself")]
+  CyclicRequirements(String),
 }
 
 impl From<ModelEvaluatorError> for DmntkError {
@@ -144,4 +146,8 @@ pub fn err_decision_table_without_output_clause() -> DmntkError {
 
 pub fn err_decision_table_rule_size_mismatch(inputs: usize, outputs: usize, expected_inputs: usize, expected_outputs: usize) -> DmntkError {
   ModelEvaluatorError::DecisionTableRuleSizeMismatch(inputs, outputs, expected_inputs, expected_outputs).into()
+}
+
+pub fn err_cyclic_requirements(id: &str) -> DmntkError {
+  ModelEvaluatorError::CyclicRequirements(id.to_string()).into()
 }
